@@ -60,6 +60,18 @@ CHECK_TEXT["C16"] = {
     "technique": "contract-based deductive verification: Verus (Z3) with an assumed data-structure contract, Kani on bit tricks, bounded conformance run of the assumed contract",
 }
 
+CHECK_TEXT["C14"] = {
+    "text": ("Plumbing proof only. Verus, on the real text (extracted every run): the id functions (from_unique_type_name, combine, sipround, read_u64_le) are total "
+             "for every name and operand and have no external/unsafe ingredient, so the same type and key give the same id in every process; "
+             "StableTypeID<->u128, u128<->Compact128 and the QueryID accessors are lossless, so two queries share a slot only if both 128-bit components "
+             "coincide. DISTINCTNESS of ids for distinct types is a collision property that no sound contract can state; it is decided only on a bounded, "
+             "generated universe of 6006 types evaluated on the real crate in two separate processes (labelled bounded)."),
+    "design_ref": "DESIGN.md section 5 (C14)",
+    "note": ("The claim is deliberately narrow: totality/purity/losslessness are proved; distinctness is bounded-checked, not proved. The Identifiable impl table, "
+             "derive macro and column-family naming are not under contract."),
+    "technique": "contract-based deductive verification (Verus, bit-vector lemmas) for totality and lossless conversions; bounded evaluation of a generated type universe for distinctness",
+}
+
 NOT_APPLICABLE = {
     "C01": "whole-history property of an async, concurrent engine; no sequential function's contract implies it and neither Verus nor Kani ingests async/tokio/scc code (DESIGN 1, 5)",
     "C02": "quantifies over schedules / single-flight / termination: concurrency and liveness are outside both verifiers (Kani has no threads; Verus would need the code rewritten onto its permission types)",
@@ -76,5 +88,4 @@ NOT_APPLICABLE = {
 PENDING = {
     "C09": "check under construction (DESIGN 5: staging-replay kernel); not claimed until it runs",
     "C13": "check under construction (DESIGN 5: hash framing); not claimed until it runs",
-    "C14": "check under construction (DESIGN 5: id plumbing); not claimed until it runs",
 }
